@@ -108,7 +108,7 @@ func main() {
 	fullLen, coreLen, deepLen := mc.Pick(r, 2, 3), mc.Pick(r, 3, 3), mc.Pick(r, 3, 4)
 	fullSeeded, coreSeeded := mc.Pick(r, 2, 2), mc.Pick(r, 2, 3)
 	casesPerProgram := 160 // upper bound; see balanced()
-	r.Rule("every history of <= full_len ownership operations over the full alphabet (44 operations: the 21 core operations plus identity / no-op / empty-operand variants, string and slice aliases, swaps, field addresses) and every history of <= core_len operations over the core alphabet (<= deep_len over the 16-operation subset OwnDeepOps), from two initial states (all zero; seeded with nodes, a 2-element slice, a map entry and an aliased heap string); one case function per history with an observation of all reachable data after every operation; each case runs on the real compiled program with instrumented runtime (monitor: live set + mirrored reference counts) without and with 0xA5 poisoning at free, and is compared with Go; distinct = distinct Go outputs")
+	r.Rule("every history of <= full_len ownership operations over the full alphabet (55 operations: the 21 core operations plus identity / no-op / empty-operand variants, string and slice aliases, swaps, field addresses, maps keyed by heap strings and by structs holding them, interface equality) and every history of <= core_len operations over the core alphabet (<= deep_len over the 16-operation subset OwnDeepOps), from two initial states (all zero; seeded with nodes, a 2-element slice, a map entry and an aliased heap string); one case function per history with an observation of all reachable data after every operation; each case runs on the real compiled program with instrumented runtime (monitor: live set + mirrored reference counts) without and with 0xA5 poisoning at free, and is compared with Go; distinct = distinct Go outputs")
 	r.Bound("ops_full", len(progs.OwnOps))
 	r.Bound("ops_core", progs.OwnCoreOps)
 	r.Bound("zero_init_full_len", fullLen)
